@@ -256,6 +256,7 @@ func regImmShift(f binaryExprFunc, i instruction, bits uint8, w expr.Width) expr
 //
 // All those properties follow from definition of division in the specification
 // (which is the one of exprtools.SignedDiv) and the equation:
+//
 //	dividend = divisor * quotient + remainder
 func signedRem(e1, e2 expr.Expr, w expr.Width) expr.Expr {
 	div := exprtools.SignedDiv(e1, e2, w)
